@@ -72,6 +72,14 @@ Theorem C15_torn_down_exactly_once : forall (c : cfg) (sch : list actor), teardo
 Proof. exact teardown_exact. Qed.
 Print Assumptions C15_torn_down_exactly_once.
 
+(* the hypothesis [teardown_returns_after] is always reachable: whenever teardown_factory has not been called yet and no
+   teardown_object raises, letting the calling code run (alone) makes teardown_factory return after finitely many steps *)
+Theorem C15_teardown_completes : forall (c : cfg) (sch : list actor),
+  (forall o, td_fails c o = false) -> td (run c sch) = TdNotCalled ->
+  exists k, teardown_returns_after c (sch ++ repeat Main k).
+Proof. exact teardown_completes. Qed.
+Print Assumptions C15_teardown_completes.
+
 (* ---- what does NOT hold of the code as it is ---- *)
 
 (* (a) without the no-thread-in-flight hypothesis "none forgotten" is false: teardown_factory called while thread 0 is
